@@ -13,7 +13,7 @@ from vmc.oracles import aff, picture
 WRAPPERS = ["Transform", "Translate", "Scale", "ScaleAroundCenter", "ScaleUniform", "ScaleUniformAroundCenter",
             "Rotate", "RotateAroundCenter", "Skew", "SkewAroundCenter"]
 FILLS = ["solid", "solidA", "fg", "lin", "linrep", "linrefl", "rad", "radrep", "radrefl"]
-STRUCTURES = ["two_layers", "single", "nested", "colrglyph", "group", "composite_outline"]
+STRUCTURES = ["two_layers", "single", "nested", "colrglyph", "group", "composite_outline", "colrglyph_outer", "layers_outer", "group_outer"]
 UNSUPPORTED = ["sweep", "composite_multiply", "composite_gradient_backdrop"]
 FG = (0.0, 0.0, 0.0, 1.0)
 
@@ -112,10 +112,23 @@ def graph(case):
         f = wrap(w, f)
     outline = "C" if case["structure"] == "composite_outline" else "L"
     x = glyph(outline, f)
-    for w in reversed(case["outer"]):
-        x = wrap(w, x)
     st = case["structure"]
     other = glyph("T", solid(2))
+    if st.endswith("_outer"):
+        # the outer transform paints sit *above* a colour-glyph reference / a layer list / the group
+        # composite instead of directly above the PaintGlyph
+        if st == "colrglyph_outer":
+            ref, extra = {"Format": PF.PaintColrGlyph, "Glyph": "base2"}, {"base2": x}
+        elif st == "layers_outer":
+            ref, extra = {"Format": PF.PaintColrLayers, "Layers": [x, glyph("T", solid(3, 0.7))]}, {}
+        else:
+            ref, extra = {"Format": PF.PaintComposite, "CompositeMode": "src_in",
+                          "SourcePaint": {"Format": PF.PaintColrLayers, "Layers": [x, glyph("T", solid(3))]}, "BackdropPaint": solid(4, 0.5)}, {}
+        for w in reversed(case["outer"]):
+            ref = wrap(w, ref)
+        return dict({"base": {"Format": PF.PaintColrLayers, "Layers": [other, ref]}}, **extra)
+    for w in reversed(case["outer"]):
+        x = wrap(w, x)
     if case.get("unsupported") == "composite_multiply":
         return {"base": {"Format": PF.PaintComposite, "CompositeMode": "multiply", "SourcePaint": x, "BackdropPaint": other}}
     if case.get("unsupported") == "composite_gradient_backdrop":
